@@ -4,14 +4,16 @@
    styled run unchanged); '&', '<' and the no-break space survive (escape/unescape inverse law); a written line is
    parsed back into exactly its runs.  Reading side: the three line-ending conventions denote the same document;
    the reader is a function of the line list only (delivery schedule: C17), never panics (C08) and reports read
-   faults (C18).  The other renderings the format tolerates (index garbage, blank-line padding, separators,
-   fraction digits, coordinates, spacing) are decided on the implementation by the ground-truth oracle of the
-   harness and on the model by the correspondence (suite srtread); theorems for them are in Proofs/SrtReadProofs.v
-   once present.  Faithful domain of the markup tokenizer model: Kit.Html.html_simple (outside it the harness
+   faults (C18).  Every rendering the format tolerates (byte-order mark, index absent / numeric / garbage, any number
+   of blank lines between cues and at the end, ',' or '.', 1-3 fraction digits, any spacing around the arrow,
+   trailing coordinates, multi-line and unterminated emphasis) of every cue list is read as the cues it denotes
+   (C01_read_rendered, C01_read_rendered_raw).  Side conditions the reader really needs (each shown necessary by a
+   computed witness in Proofs/SrtReadProofs.v, all outside the property's quantifier): a cue without index line
+   must be preceded by a blank line; coordinates are separated from the end time by white space.  Faithful domain of the markup tokenizer model: Kit.Html.html_simple (outside it the harness
    compares result classes only). *)
 From Coq Require Import List ZArith NArith Bool.
 From Astisub Require Import Kit.Base Kit.Str Kit.Scan Kit.Html Model.Dur Model.Srt.
-From Astisub Require Import Proofs.SrtEscProofs Proofs.SrtProofs Proofs.EolProofs Proofs.SrtIOProofs.
+From Astisub Require Import Proofs.SrtEscProofs Proofs.SrtProofs Proofs.SrtReadProofs Proofs.EolProofs Proofs.SrtIOProofs.
 Import ListNotations.
 
 (* the document written for a representable cue list is read back as that list *)
@@ -31,6 +33,25 @@ Print Assumptions C01_line_roundtrip.
 Theorem C01_escape_inverse : forall s : str, unescape_html (escape_html s) = s.
 Proof. exact unescape_escape. Qed.
 Print Assumptions C01_escape_inverse.
+
+(* every tolerated rendering of every representable cue list is read as the cues it denotes: index = the number on
+   the index line (0 when absent or not a number), times truncated to the rendered number of fraction digits, lines
+   and styled runs as given *)
+Theorem C01_read_rendered : forall (b : bool) (l : list (rend * sitem)) (eof : nat),
+  Forall (fun p => rend_ok (fst p) /\ repr_item (snd p)) l ->
+  Forall (fun p => gap_ok (fst p)) (tl l) ->
+  read_srt_lines (render_items b l eof) false = Ok (map denote_item l).
+Proof. exact read_rendered. Qed.
+Print Assumptions C01_read_rendered.
+
+(* the same over raw text lines (markup not necessarily as the writer would put it): the style state is threaded
+   from line to line inside a cue -- unterminated and multi-line emphasis -- and reset by the next timing line *)
+Theorem C01_read_rendered_raw : forall (b : bool) (cs : list (rend * rcue)) (eof : nat),
+  Forall (fun p => rend_ok (fst p) /\ rcue_ok (snd p)) cs ->
+  Forall (fun p => gap_ok (fst p)) (tl cs) ->
+  read_srt_lines (render b cs eof) false = Ok (map denote_cue cs).
+Proof. exact read_rendered_raw. Qed.
+Print Assumptions C01_read_rendered_raw.
 
 (* LF, CR LF and lone CR denote the same document: the reader sees exactly the lines that were rendered *)
 Theorem C01_eol : forall e (ls : list str), eol_ok e -> Forall brkfree ls ->
